@@ -288,6 +288,16 @@ func crashViolation(prop string, r Result) (Violation, bool) {
 	if strings.Contains(out, "WATCHDOG") {
 		return Violation{}, false
 	}
+	// a panic while the harness itself encodes or parses is harness trouble
+	if i := strings.Index(out, "\ngoroutine "); i >= 0 {
+		first := out[i:]
+		if j := strings.Index(first[1:], "\n\n"); j >= 0 {
+			first = first[:j+1]
+		}
+		if strings.Contains(first, "verif/scen.encodeService") || strings.Contains(first, "verif/refcodec.") || strings.Contains(first, "verif/scen.(*rawSrvConn)") {
+			return Violation{}, false
+		}
+	}
 	m := panicRe.FindString(out)
 	if m == "" {
 		return Violation{}, false
@@ -317,6 +327,7 @@ func crashViolation(prop string, r Result) (Violation, bool) {
 	pm = regexp.MustCompile(`0x[0-9a-f]+`).ReplaceAllString(pm, "0x?")
 	pm = regexp.MustCompile(`\[recovered\].*`).ReplaceAllString(pm, "")
 	pm = regexp.MustCompile(`\d+`).ReplaceAllString(pm, "N")
+	pm = regexp.MustCompile(`interface conversion: .*`).ReplaceAllString(pm, "interface conversion")
 	if len(rest) > 6000 {
 		rest = rest[:6000]
 	}
@@ -665,7 +676,7 @@ func main() {
 			continue
 		}
 		nviol++
-		if nviol > 5 {
+		if nviol > 12 {
 			continue
 		}
 		job := Job{Property: ci.viol.Property, Scenario: ci.first.Scenario, Seed: ci.first.Seed, PlanTape: ci.first.PlanTape, SchedTape: ci.first.SchedTape, Class: c, Detail: ci.viol.Detail, Trace: ci.first.TraceHash}
